@@ -19,7 +19,7 @@ chk.extra['rule'] = ('op sequences over a pool of real Molecule objects with arb
                      'after every op the whole pool and the molecule lists + force fields of all systems are dumped and compared with '
                      'the model; a sequence is non-trivial if it contains >= 1 removal or merge and >= 1 interaction; distinct = distinct '
                      'op sequence; add_edges_at_distance is checked by the oracle only (cases edge-dist-*)')
-chk.lean(['VermouthProps.C12'], 'driver_c12')
+chk.lean(['VermouthProps.C12', 'VermouthProps.C12_Ext'], 'driver_c12')
 
 import networkx as nx
 import numpy as np
